@@ -40,7 +40,7 @@ HOWS = ["call", "value", "yielded", "yielded_value"]
 
 
 def plan(tier, seed, build, scale):
-    n = int((64 if tier == "quick" else 1000) * scale)
+    n = int((48 if tier == "quick" else 1000) * scale)
     per = max(1, n // 16) if tier == "quick" else max(1, n // 48)
     units = []
     a = 0
